@@ -31,7 +31,7 @@
 (* kind = "geo" (geometric laws over recorded renderings of a DC source).   *)
 (* cfg: q (coordinates are integers / q), minc, maxc (within the minimum    *)
 (* distance iff d^2 q^2 <= minc, at or beyond the maximum iff >= maxc),     *)
-(* att (an attenuation curve is configured), s (strength * 1000), tol       *)
+(* att (an attenuation curve is configured), st (strength * 1000), tol      *)
 (* (units of 10^-6).                                                        *)
 (*   o   l e R rel M t gl gr z fin flat p                                   *)
 (*       listener at l with orientation R (rotation matrix, row major,      *)
@@ -168,7 +168,7 @@ CheckGeo(m, e) ==
       within == d2 <= c.minc
       beyond == d2 >= c.maxc
       plain == ~c.att \/ within                      \* no attenuation applies
-      lo == ONE - c.s * 1000
+      lo == ONE - c.st * 1000
       b == m.base
   IN IF e.a # "o" THEN ""
      ELSE IF e.p THEN "no_panic"
@@ -179,15 +179,15 @@ CheckGeo(m, e) ==
      ELSE IF e.gl > ONE + tol \/ e.gr > ONE + tol THEN "gain_at_most_one"
      ELSE IF e.gl < 0 \/ e.gr < 0 THEN "ear_gain_at_least_one_minus_strength"
      ELSE IF plain /\ (e.gl < lo - tol \/ e.gr < lo - tol)
-          THEN (IF c.s # 0 THEN "ear_gain_at_least_one_minus_strength"
+          THEN (IF c.st # 0 THEN "ear_gain_at_least_one_minus_strength"
                 ELSE IF c.att THEN "unity_within_min_distance" ELSE "strength_zero_passes_unpanned")
-     ELSE IF c.s = 0 /\ Abs(e.gl - e.gr) > tol THEN "strength_zero_passes_unpanned"
-     ELSE IF c.s # 0 /\ side > 0 /\ e.gr < e.gl - tol THEN "louder_ear_on_emitter_side"
-     ELSE IF c.s # 0 /\ side < 0 /\ e.gl < e.gr - tol THEN "louder_ear_on_emitter_side"
+     ELSE IF c.st = 0 /\ Abs(e.gl - e.gr) > tol THEN "strength_zero_passes_unpanned"
+     ELSE IF c.st # 0 /\ side > 0 /\ e.gr < e.gl - tol THEN "louder_ear_on_emitter_side"
+     ELSE IF c.st # 0 /\ side < 0 /\ e.gl < e.gr - tol THEN "louder_ear_on_emitter_side"
      ELSE IF side = 0 /\ Abs(e.gl - e.gr) > tol THEN "swap_under_mirroring"
-     ELSE IF m.hl /\ c.s = 0 /\ c.att /\ d2 = m.ld2 /\ Abs(e.gl - m.lgl) > tol THEN "attenuation_depends_only_on_distance"
-     ELSE IF m.hl /\ c.s = 0 /\ c.att /\ d2 > m.ld2 /\ e.gl > m.lgl + tol THEN "attenuation_non_increasing"
-     ELSE IF m.hl /\ c.s = 0 /\ c.att /\ d2 < m.ld2 /\ e.gl < m.lgl - tol THEN "attenuation_non_increasing"
+     ELSE IF m.hl /\ c.st = 0 /\ c.att /\ d2 = m.ld2 /\ Abs(e.gl - m.lgl) > tol THEN "attenuation_depends_only_on_distance"
+     ELSE IF m.hl /\ c.st = 0 /\ c.att /\ d2 > m.ld2 /\ e.gl > m.lgl + tol THEN "attenuation_non_increasing"
+     ELSE IF m.hl /\ c.st = 0 /\ c.att /\ d2 < m.ld2 /\ e.gl < m.lgl - tol THEN "attenuation_non_increasing"
      ELSE IF e.rel = 0 THEN ""
      ELSE IF ~m.hb THEN "harness_no_base"
      ELSE IF e.rel = 1 THEN
